@@ -135,7 +135,7 @@ func VerifC18_Overlay() {
 	}
 
 	// directory listings
-	for _, d := range []string{".", "d", "e", "nope"} {
+	for _, d := range []string{".", "d", "e", "nope", "d/x"} {
 		wantNames, wantIsDir, found := ref.readDir(d)
 		ents, err := o.ReadDir(d)
 		zzNote("dir", d)
